@@ -22,7 +22,7 @@ REWRITES = {
      "            elif f.physical_quantities == PhysicalQuantities.PRESSURE:\n")], ["C18", "C17", "C15"]),
  "utils-rename-local": ("nmea2000/utils.py", [("number_int", "raw_scaled")], ["C01", "C02", "C09"]),
  "pgns-reformat": ("nmea2000/pgns.py", [("    running_bit_offset = 0\n", "    running_bit_offset = 0  # start\n")], ["C01", "C08", "C02", "C17"]),
- "serial-buffer-renamed": ("nmea2000/ioclient.py", [("self._buffer", "self._rxbuf")], ["C20", "C12", "C13"]),
+ "serial-buffer-renamed": ("nmea2000/ioclient.py", [("self._buffer", "self._rxbuf")], ["C20", "C12", "C13", "C06"]),
  "key-fstring": ("nmea2000/message.py", [(
      '                    primary_key += "_" + str(nmea_field.raw_value)\n',
      '                    primary_key = f"{primary_key}_{nmea_field.raw_value}"\n')], ["C17"]),
